@@ -105,6 +105,9 @@ pub fn c15_states(ctx: &Ctx, thorough: bool) -> Vec<(String, StateSpec)> {
         ("nothing".into(), state(false, MetaSpec::Absent, Absent)),
         ("absent".into(), state(true, MetaSpec::Absent, Absent)),
         ("complete".into(), state(true, MetaSpec::Current, Complete)),
+        // ... with the metadata in its plainest form: the two fields and nothing else (what every
+        // release so far has written, whatever else the tree under test may add to the file)
+        ("complete(two-field metadata)".into(), state(true, MetaSpec::Text { text: format!("{{\"version\":\"{}\",\"database_hash\":\"{}\"}}", ctx.reference.version, ctx.reference.hash) }, Complete)),
         ("other-version+complete".into(), state(true, MetaSpec::OtherVersion, Complete)),
         ("other-version+foreign".into(), state(true, MetaSpec::OtherVersionOtherHash, Foreign)),
         ("other-version+other-schema".into(), state(true, MetaSpec::OtherVersionOtherHash, ForeignSchema)),
@@ -968,7 +971,24 @@ pub fn c18_text(pool: &PhrasePool, rng: &mut Rng) -> String {
         let target = *rng.pick(&["m/s^2", "m/s^2", "N", "W", "Pa", "m/s^3", "km/h^2", "ft/s^2", "km/s^2"]);
         format!("{} {chain} to {target}", literal(rng))
     };
-    match rng.below(28) {
+    match rng.below(31) {
+        // a number directly in front of a fact's words (what a reader takes for a multiplication),
+        // alone, in a function call, under a power, before a cast, before a division
+        28 | 29 => match rng.below(6) {
+            0 => format!("{} {}", literal(rng), p(rng)),
+            1 => format!("round({} {})", literal(rng), p(rng)),
+            2 => format!("({} {}) ^ 2", literal(rng), p(rng)),
+            3 => format!("{} {} to g", literal(rng), p(rng)),
+            4 => format!("{} {} / {}", literal(rng), p(rng), p(rng)),
+            _ => format!("{} + {} {}", p(rng), literal(rng), p(rng)),
+        },
+        // a fact's words directly in front of a unit, a percent sign, or as a function argument among others
+        30 => match rng.below(4) {
+            0 => format!("{} km", p(rng)),
+            1 => format!("{}%", p(rng)),
+            2 => format!("round({}, {})", p(rng), literal(rng)),
+            _ => format!("2 ^ {}", p(rng)),
+        },
         24 => format!("({}) * {}", chain_cast(rng), p(rng)),
         25 => format!("{} * {}", p(rng), chain_cast(rng)),
         26 => format!("({}) ({}) ({})", p(rng), chain_cast(rng), p(rng)),
@@ -1505,6 +1525,34 @@ pub fn c19_query(pool: &PhrasePool, rng: &mut Rng) -> String {
         18 => format!("2{} / 2{}", unit(rng), unit(rng)),
         _ => format!("round({} / {})", int(rng), rng.range(1, 97)),
     }
+}
+
+/// One invocation of the program with one result per given order of magnitude: `(1e{k})` groups,
+/// blank-free; every eighth with another mantissa, a sign or a unit.
+pub fn c19_magnitudes(ctx: &Ctx, ks: &[usize], seed: u64) -> History {
+    let mut rng = Rng::new(seed);
+    let q: String = ks
+        .iter()
+        .map(|k| {
+            if rng.chance(7, 8) {
+                format!("(1e{k})")
+            } else {
+                match rng.below(5) {
+                    0 => format!("(1.000005e{k})"),
+                    1 => format!("(9.99e{k})"),
+                    2 => format!("(0-1e{k})"),
+                    3 => format!("(1e{k}m)"),
+                    _ => format!("(12.5e{k}*0.08)"),
+                }
+            }
+        })
+        .collect();
+    let steps = vec![
+        Step::Fabricate { state: state(true, MetaSpec::Current, IndexSpec::Complete) },
+        Step::Cli { query: q.clone(), exact: false, describe: false, env: vec![], split: false, inject: None, tty: false },
+        Step::Start { session: ctx.session(1, vec![], vec![Op::Open { slot: 0, mode: Mode::Disk, plan: Plan::default() }, Op::Ask { slot: 0, phrases: vec![q], file: None, subset: None, detail: true }]) },
+    ];
+    History { property: "C19".into(), seed, label: format!("any with one result per order of magnitude: {} values between 1e{} and 1e{}", ks.len(), ks.iter().min().copied().unwrap_or(0), ks.iter().max().copied().unwrap_or(0)), steps }
 }
 
 pub fn c19_random(ctx: &Ctx, pool: &PhrasePool, rng: &mut Rng, seed: u64) -> History {
